@@ -131,7 +131,7 @@ Definition defOf (refs : list (bytes * linkDef)) (src : bytes) (i : inline) : li
 
 Definition attr (name : bytes) (v : bytes) : bytes := [32] ++ name ++ [61; 34] ++ v ++ [34].
 Definition s_href := [104;114;101;102]. Definition s_src := [115;114;99]. Definition s_title := [116;105;116;108;101].
-Definition s_alt := [97;108;116]. Definition s_br := [60;98;114;62;10].
+Definition s_alt := [97;108;116]. Definition s_brname := [98;114].
 
 (* alt text (appendAltText, repaired) *)
 Fixpoint altText (fuel : nat) (src : bytes) (i : inline) : bytes :=
@@ -158,9 +158,9 @@ Fixpoint renderI (fuel : nat) (c : cfg) (refs : list (bytes * linkDef)) (src : b
     else if k =? RawHTMLKind then
       if ignoreRaw c then [] else if filterOn c then filterRaw c (spanOf src i) else spanOf src i
     else if k =? SoftLineBreakKind then
-      if softBreak c =? 2 then s_br else if softBreak c =? 1 then [32]
+      if softBreak c =? 2 then openTag c s_brname ++ [10] else if softBreak c =? 1 then [32]
       else if 0 <? iend i - istart i then spanOf src i else [10]
-    else if k =? HardLineBreakKind then s_br
+    else if k =? HardLineBreakKind then openTag c s_brname ++ [10]
     else if k =? EmphasisKind then openTag c [101;109] ++ kids ++ closeTag c [101;109]
     else if k =? StrongKind then openTag c [115;116;114;111;110;103] ++ kids ++ closeTag c [115;116;114;111;110;103]
     else if k =? CodeSpanKind then openTag c [99;111;100;101] ++ kids ++ closeTag c [99;111;100;101]
